@@ -53,6 +53,29 @@ def last(name):
     return name.split("::")[-1]
 
 
+def _beta(prog, b, val, lhs, entry):
+    """combinator spellings of a rewrite, reduced to the value they compute: `[a, b].map(f)[k]` is f applied to the k-th element, and
+    `P = P.map(f)` on an optional place stores Some(f(x)) where P held Some(x) and leaves None alone"""
+    from ..lib import loops as _loops
+
+    def f(n):
+        if n[0] == "cindex" and not n[3] and n[1][0] == "call" and n[1][1]["name"].startswith("core::array::") and last(n[1][1]["name"]) == "map" \
+                and len(n[1][2]) == 2 and n[1][2][0][0] == "agg" and n[1][2][0][1] == "array" and isinstance(n[2], int) and n[2] < len(n[1][2][0][3]):
+            lam = _loops.lam_of(prog, n[1][2][1])
+            if lam is not None and lam.kind == "closure":
+                return lam.apply(n[1][2][0][3][n[2]])
+        return n
+    val = mir.rewrite(val, f)
+    if val[0] == "call" and val[1]["name"] == "core::option::Option::map" and len(val[2]) == 2:
+        src = paths.access_path(b, val[2][0], roots={entry})
+        dst = paths.access_path(b, lhs, roots={entry})
+        lam = _loops.lam_of(prog, val[2][1])
+        if src is not None and dst is not None and src[0] == dst[0] and paths.norm(src[1]) == paths.norm(dst[1]) and lam is not None and lam.kind == "closure":
+            some_payload = ("field", ("downcast", val[2][0], 1, "Some"), 0, "0", "core::option::Option")
+            return ("agg", "adt", mir.HDict({"adt": "core::option::Option", "vname": "Some", "fields": ("0",)}), (lam.apply(some_payload),))
+    return val
+
+
 def _worker_of(prog, drv_path):
     """the recursive worker of `retain` wherever it is declared: the one crate-local function called from the driver (or its closures) that calls itself"""
     seen = set()
@@ -250,9 +273,9 @@ def check_config(chk, prog, cfg):
     chk.count("recursive_calls", len(rec))
 
     def is_new_id(t):
-        """cast(len(new_types)) possibly re-cast"""
-        while t[0] == "cast":
-            t = t[2]
+        """cast(len(new_types)) possibly re-cast, or read back from the map slot it was just stored in (`*vacant.insert(new_id)`)"""
+        while t[0] in ("cast", "deref") or (t[0] == "call" and last(t[1]["name"]) == "insert" and "VacantEntry" in t[1]["name"] and len(t[2]) == 2):
+            t = t[2] if t[0] == "cast" else (t[1] if t[0] == "deref" else t[2][1])
         return t[0] == "call" and last(t[1]["name"]) == "len" and t[1]["name"].startswith("alloc::vec::Vec") \
             and is_arg(t[2][0], A_NEW)
 
@@ -344,6 +367,7 @@ def check_config(chk, prog, cfg):
             chk.unrecognised("R10.C", "store:" + path_str(lhs), W(bb), "store target is not a recognised access path", cfg)
             continue
         root, p = ap[0], paths.norm(ap[1])
+        val = _beta(prog, b, val, lhs, entry)
         if root == entry:
             p = PFX + p
             if p == ".id":
@@ -379,7 +403,7 @@ def check_config(chk, prog, cfg):
                     elif not pass_through:
                         detail = "recursive call does not pass (types, new_types, retained_mappings) through: %s" % path_str(inner)
                     # the store must come after the call whose result it uses
-                    if okv and not b.dominates(inner[1]["bb"], bb):
+                    if okv and inner[1].get("bb") is not None and not b.dominates(inner[1]["bb"], bb):
                         okv = False
                         detail = "store not dominated by its recursive call"
             seen_id_store.setdefault(q, []).append((okv, bb, detail))
@@ -459,7 +483,7 @@ def check_config(chk, prog, cfg):
             if at[0] == "ref" and at[1]:
                 ap = paths.access_path(b, at, roots={entry})
                 if ap is not None and ap[0] == entry:
-                    if last(nm) in ("deref_mut", "iter_mut", "into_iter", "as_mut", "next"):
+                    if last(nm) in ("deref_mut", "iter_mut", "into_iter", "as_mut", "next", "index_mut"):
                         continue
                     if at[2] == entry and nm in ("core::mem::replace", "core::mem::swap"):
                         continue
